@@ -230,3 +230,48 @@ func MaxDeclared(b []byte) uint64 {
 	}
 	return max
 }
+
+// Payload locates one block's payload inside the blob.
+type Payload struct {
+	Typ        byte
+	Start, End int // byte offsets of the payload (after the type byte)
+}
+
+// BlockPayloads returns the payload ranges of the four blocks (strings, message, tags, values) of a well-framed blob.
+func BlockPayloads(b []byte) ([]Payload, bool) {
+	if len(b) == 0 {
+		return nil, false
+	}
+	pos := 1
+	uv := func() (uint64, bool) {
+		v, n := binary.Uvarint(b[pos:])
+		if n <= 0 {
+			return 0, false
+		}
+		pos += n
+		return v, true
+	}
+	if _, ok := uv(); !ok { // total size
+		return nil, false
+	}
+	if _, ok := uv(); !ok { // tape length
+		return nil, false
+	}
+	var out []Payload
+	for k := 0; k < 4; k++ {
+		if _, ok := uv(); !ok { // declared section size
+			return nil, false
+		}
+		bs, ok := uv() // block size incl. type byte
+		if !ok || pos+int(bs) > len(b) {
+			return nil, false
+		}
+		if bs == 0 {
+			out = append(out, Payload{Typ: 0, Start: pos, End: pos})
+			continue
+		}
+		out = append(out, Payload{Typ: b[pos], Start: pos + 1, End: pos + int(bs)})
+		pos += int(bs)
+	}
+	return out, true
+}
